@@ -1,6 +1,6 @@
 # replay of a solver counterexample against the real library (exit 1 = reproduces)
 import sys, warnings
-sys.path.insert(0, '/repo')
+sys.path.insert(0, '/tmp/sr/C14-m3')
 warnings.simplefilter('ignore')
 import numpy as np
 from svgpathtools import *
@@ -15,7 +15,7 @@ def NOT_REPRODUCED(msg=''):
 
 from fractions import Fraction as F
 from math import comb
-p = Path(Line(-1j, -1j), CubicBezier(-1j, 0j, (-1+0j), -1j))
+p = Path(Line(-1j, (-1-1j)), CubicBezier((-1-1j), 0j, 0j, -1j))
 def pc(ps):
     n = len(ps) - 1; out = []
     for j in range(n + 1):
